@@ -82,6 +82,7 @@ type interpreter struct {
 	depth   int
 	race    *raceState
 	curExtFn *ssa.Function
+	lastFrame *frame
 	skipExt bool // next callSSA runs the body even if an intrinsic is registered
 }
 
@@ -199,6 +200,7 @@ var initDeny = map[string]bool{
 	"mime/multipart": true, "crypto/sha256": true, "crypto/sha1": true, "crypto/md5": true, "crypto/internal/boring": true,
 	"hash/crc32": true, "log/slog": true, "internal/bytealg": true, "crypto": true, "internal/testlog": true,
 	"net/textproto": false,
+	"github.com/davecgh/go-spew/spew": true,
 }
 
 func (fr *frame) get(key ssa.Value) value {
@@ -321,7 +323,11 @@ func (i *interpreter) logStore(addr *value) {
 		i.undo = append(i.undo, undoEntry{addr: addr, old: *addr})
 		if i.frozen != nil {
 			if what, ok := i.frozen[addr]; ok {
-				i.ps.violation("frozen", "store into frozen object "+what, "", "", nil)
+				where := ""
+				if i.lastFrame != nil {
+					where = i.lastFrame.site() + " in " + i.lastFrame.stack()
+				}
+				i.ps.violation("frozen", "store into frozen object "+what, where, where, nil)
 				panic(engineAbort{"stop", "store into frozen object " + what})
 			}
 		}
@@ -388,6 +394,7 @@ func (fr *frame) nilCheck(p *value) *value {
 func visitInstr(fr *frame, instr ssa.Instruction) continuation {
 	fr.cur = instr
 	i := fr.i
+	i.lastFrame = fr
 	if ps := i.ps; ps != nil {
 		ps.instrs++
 		if m := i.ex.Lim.MaxInstrs; m > 0 && ps.instrs > m {
@@ -781,6 +788,10 @@ func callSSA(i *interpreter, caller *frame, callpos token.Pos, fn *ssa.Function,
 			}
 			if isStdlib(pkg.Pkg.Path()) && !i.initing[pkg] {
 				return nil // initialised lazily
+			}
+			if initDeny[pkg.Pkg.Path()] {
+				i.inited[pkg] = true
+				return nil // only used by the native variant of the harness API
 			}
 			i.inited[pkg] = true
 		}
